@@ -2377,6 +2377,16 @@ class BSP:
                 node.child_pos = nodes[pos_ind][0]
         return [node for node, i, j in nodes]
 
+    def _pack_bbox(self, mins: Vec, maxes: Vec) -> tuple[float, float, float, float, float, float]:
+        """Produce the node/leaf bounding box values, in the form the lump layout expects."""
+        if self.version is VERSIONS.CHAOSSOURCE:
+            # Stored as floats, don't truncate.
+            return (mins.x, mins.y, mins.z, maxes.x, maxes.y, maxes.z)
+        return (
+            int(mins.x), int(mins.y), int(mins.z),
+            int(maxes.x), int(maxes.y), int(maxes.z),
+        )
+
     def _lmp_write_nodes(self, nodes: list['VisTree']) -> bytes:
         """Reconstruct the visleaf/bsp tree data."""
         add_node = find_or_insert(nodes)
@@ -2399,8 +2409,7 @@ class BSP:
 
             buf.write(self.lump_layout['NODE'].pack(
                 add_plane(node.plane), neg_ind, pos_ind,
-                int(node.mins.x), int(node.mins.y), int(node.mins.z),
-                int(node.maxes.x), int(node.maxes.y), int(node.maxes.z),
+                *self._pack_bbox(node.mins, node.maxes),
                 add_faces(node.faces), len(node.faces), node.area_ind,
             ))
 
@@ -2432,18 +2441,16 @@ class BSP:
             if is_vitamin:
                 buf.write(self.lump_layout['LEAF'].pack(
                     leaf.contents.value, leaf.cluster_id, leaf.area,
-                    int(leaf.mins.x), int(leaf.mins.y), int(leaf.mins.z),
-                    int(leaf.maxes.x), int(leaf.maxes.y), int(leaf.maxes.z),
+                    *self._pack_bbox(leaf.mins, leaf.maxes),
                     face_ind, len(leaf.faces),
                     brush_ind, len(leaf.brushes),
                     leaf.water_id, leaf.flags.value,
                 ))
             else:
-                leafdata: tuple[Union[int, bytes], ...] = (
+                leafdata: tuple[Union[int, float, bytes], ...] = (
                     leaf.contents.value, leaf.cluster_id,
                     (leaf.area << self.lump_layout['LEAF_AREA_OFFSET'] | leaf.flags.value),
-                    int(leaf.mins.x), int(leaf.mins.y), int(leaf.mins.z),
-                    int(leaf.maxes.x), int(leaf.maxes.y), int(leaf.maxes.z),
+                    *self._pack_bbox(leaf.mins, leaf.maxes),
                     face_ind, len(leaf.faces),
                     brush_ind, len(leaf.brushes),
                     leaf.water_id)
